@@ -408,7 +408,9 @@ func RunParamsCLI(self, bin string, sc ParamScenario, base string) Ev {
 	y += "steps:\n"
 	y += "  - name: prod\n    command: " + self + " payload -class " + sc.Payload + "\n    output: OUTV\n"
 	y += "  - name: first\n    command: " + probe("first") + "\n    depends: [prod]\n"
-	y += "  - name: hold\n    command: sh -c \"test -f " + filepath.Join(dir, "release") + " || sleep 30\"\n    depends: [first]\n"
+	// the hold step sleeps in run 1 only; it says so (marker file) AFTER it has decided, so that the rig can wait for the
+	// decision instead of guessing how long the step takes to start on a loaded machine
+	y += "  - name: hold\n    command: sh -c \"test $(cat " + filepath.Join(dir, "run") + ") != 1 || { touch " + filepath.Join(dir, "holding") + "; sleep 30; }\"\n    depends: [first]\n"
 	y += "  - name: after\n    command: " + probe("after") + "\n    depends: [hold]\n"
 	file := filepath.Join(dagsDir, fmt.Sprintf("cli%d.yaml", sc.ID))
 	os.WriteFile(file, []byte(y), 0o644)
@@ -448,9 +450,17 @@ func RunParamsCLI(self, bin string, sc ParamScenario, base string) Ev {
 		}
 		time.Sleep(10 * time.Millisecond)
 	}
-	time.Sleep(250 * time.Millisecond) // the hold step is running now
+	for {
+		if _, err := os.Stat(filepath.Join(dir, "holding")); err == nil {
+			break // the hold step of run 1 has decided to sleep
+		}
+		if time.Now().After(dl) {
+			rec["infra"] = "run 1 never reached its hold step"
+			return rec
+		}
+		time.Sleep(10 * time.Millisecond)
+	}
 	// ---- run 2: restart while run 1 is running
-	os.WriteFile(filepath.Join(dir, "release"), []byte("x"), 0o644)
 	setRun(2)
 	r2 := make(chan error, 1)
 	go func() { r2 <- cli.Restart(d, client.RestartOptions{Quiet: os.Getenv("VH_CLI_VERBOSE") == ""}) }()
